@@ -48,7 +48,10 @@ func vC12File() (*File, *Client) {
 	vSentLog = nil
 	vPeer = vC12Peer
 	c := vPeerClient()
-	c.ext["fsync@openssh.com"] = "1"
+	// whether the peer advertises fsync is its business (added after seeded change C12-e)
+	if vNondetBool() {
+		c.ext["fsync@openssh.com"] = "1"
+	}
 	c.maxPacket, c.maxConcurrentRequests, c.disableConcurrentReads = 4, 2, true
 	return &File{c: c, path: "/f", handle: "h"}, c
 }
